@@ -21,7 +21,8 @@ META = {
              "random structured pairs up to 10^5 elements; wrapper None/copy conventions; multi-way union of 0-5 "
              "arrays; in-situ calls from cube walks and set updates. Non-trivial: both operands non-empty and neither "
              "contained in the other (pairs), >=2 non-empty inputs sharing an element (multi-way); distinct by content"),
-    "require": {"quick": ["kernel_calls", "wrapper_calls", "many_calls", "insitu_kernel_calls",
+    "require": {"quick": ["kernel_calls", "wrapper_calls", "many_calls", "insitu_kernel_calls", "many:chain",
+                          "presentation:strided", "presentation:view_in_buffer",
                           "class:left_empty", "class:right_empty", "class:touching", "class:nested",
                           "class:interleaved", "class:identical"],
                 "thorough": ["kernel_calls", "wrapper_calls", "many_calls", "insitu_kernel_calls", "long_pairs"]},
@@ -36,6 +37,8 @@ def shards(tier):
     if tier == "quick":
         out = [{"label": "exh7-%s" % e, "kind": "exhaustive", "size": 7, "embedding": e}
                for e in ("identity", "gapped", "extremes", "random")]
+        out += [{"label": "exh6-strided", "kind": "exhaustive", "size": 6, "embedding": "gapped", "presentation": ["strided", "strided"]},
+                {"label": "exh6-view", "kind": "exhaustive", "size": 6, "embedding": "extremes", "presentation": ["view_in_buffer", "strided"]}]
         out += [{"label": "random", "kind": "random", "n": 3000, "maxlen": 300},
                 {"label": "many", "kind": "many", "n": 4000},
                 {"label": "insitu", "kind": "insitu", "n": 150},
@@ -46,6 +49,9 @@ def shards(tier):
             for part in range(4):
                 out.append({"label": "exh10-%s-%d" % (e, part), "kind": "exhaustive", "size": 10,
                             "embedding": e, "part": part, "parts": 4})
+        out += [{"label": "exh8-strided", "kind": "exhaustive", "size": 8, "embedding": "gapped", "presentation": ["strided", "strided"]},
+                {"label": "exh8-view", "kind": "exhaustive", "size": 8, "embedding": "extremes", "presentation": ["view_in_buffer", "strided"]},
+                {"label": "exh8-own-strided", "kind": "exhaustive", "size": 8, "embedding": "identity", "presentation": ["own", "strided"]}]
         out += [{"label": "random%d" % i, "kind": "random", "n": 20000, "maxlen": 400} for i in range(3)]
         out += [{"label": "long", "kind": "random", "n": 300, "maxlen": 100000, "long": True}]
         out += [{"label": "many%d" % i, "kind": "many", "n": 40000} for i in range(2)]
@@ -200,6 +206,19 @@ def run_shard(ctx):
         arrays = [K.arr([emb[i] for i in t]) for t in subs]
         sets = [set(x.tolist()) for x in arrays]
         part, parts = s.get("part", 0), s.get("parts", 1)
+        pres = s.get("presentation")
+        if pres:
+            # same enumeration, operands presented as strided views / views inside larger buffers
+            left = [[x for l, x in K.presentations(a.tolist(), rng) if l == pres[0]][0] for a in arrays]
+            right = [[x for l, x in K.presentations(a.tolist(), rng) if l == pres[1]][0] for a in arrays]
+            for i in range(len(subs)):
+                for j in range(len(subs)):
+                    run_pair(ctx, so, left[i], right[j], "exh-" + pres[0], sets[i], sets[j], kernels_only=False)
+                if ctx.full():
+                    return
+            ctx.count("presentation:%s" % pres[0], len(subs) ** 2)
+            ctx.count("presentation:%s" % pres[1], len(subs) ** 2)
+            return
         n = 0
         for i in range(len(subs)):
             if i % parts != part:
@@ -217,6 +236,13 @@ def run_shard(ctx):
     elif kind == "random":
         for n in range(s["n"]):
             a, b = K.random_pair(rng, maxlen=s["maxlen"])
+            # the same sequences presented as views: inside a larger buffer, strided, read-only
+            if n % 3 == 1 and len(a) <= 5000:
+                pa, pb = K.pickone(rng, ["own", "view_in_buffer", "strided", "readonly"]), K.pickone(rng, ["own", "view_in_buffer", "strided", "readonly"])
+                a = [x for l, x in K.presentations(a.tolist(), rng) if l == pa][0]
+                b = [x for l, x in K.presentations(b.tolist(), rng) if l == pb][0]
+                ctx.count("presentation:%s" % pa)
+                ctx.count("presentation:%s" % pb)
             run_pair(ctx, so, a, b, "random")
             if s.get("long"):
                 ctx.count("long_pairs")
@@ -232,6 +258,23 @@ def run_shard(ctx):
             k = int(rng.integers(0, 6))
             uni = int(K.pickone(rng, [6, 12, 40, 2 ** 32]))
             arrays = []
+            if n % 5 == 4:
+                # an ordered chain of arrays that are pairwise disjoint or touch at one element
+                # (and permutations of it): the shapes a "just concatenate" shortcut would target
+                k = int(rng.integers(2, 6))
+                cur = int(rng.integers(0, 5))
+                for _ in range(k):
+                    m = int(rng.integers(1, 5))
+                    x = cur + numpy.cumsum(rng.integers(1, 4, size=m)) - 1
+                    x[0] = cur
+                    x = numpy.unique(x).astype(U32)
+                    arrays.append(x)
+                    cur = int(x[-1]) + int(rng.integers(0, 2))     # 0 = touching, 1 = adjacent
+                if rng.random() < 0.3:
+                    rng.shuffle(arrays)
+                ctx.count("many:chain")
+                run_many(ctx, so, arrays)
+                continue
             for _ in range(k):
                 m = int(rng.integers(0, 8)) if rng.random() < 0.8 else int(rng.integers(0, 60))
                 if rng.random() < 0.15:
